@@ -270,3 +270,22 @@ Proof.
   repeat split; try (vm_compute; reflexivity); try (apply supportedb_iff; vm_compute; reflexivity).
 Qed.
 Print Assumptions C20_nonvacuous.
+
+(* E2: the string-level solver contract of the default backend is regenerated from the source on every run
+   (coq/gen/Gen_validate_solver.v = BaseBackend._validate_solver with SUPPORTED_SOLVERS read from the class attribute,
+   coq/gen/Gen_solve_dispatch.v = the if-chain of BaseBackend._solve; harness/py2v.py).  For every string: the generated
+   functions equal the hand model (validate_solver_str / solve_dispatch_str for BDefault), every accepted string runs the
+   integrator that carries its name (no accepted string falls through to the last branch under another name), and a
+   refused string runs nothing. *)
+From PV Require Import PyLib SolverEquiv.
+From PVG Require Import Gen_validate_solver Gen_solve_dispatch.
+Theorem C20_solver_strings_generated : forall s has_dde,
+  (validate_solver s = if validate_solver_str BDefault (Some s) then Some tt else None) /\
+  (solve_dispatch s has_dde =
+     if validate_solver_str BDefault (Some s) then Some (called_name (solve_dispatch_str BDefault (Some s)) has_dde) else None) /\
+  (validate_solver s = Some tt ->
+     exists m, solve_dispatch s has_dde = Some m /\
+               (m = ("_solve_" ++ s)%string \/ (s = "scipy"%string /\ has_dde = true /\ m = "_solve_scipy_dde"%string))) /\
+  (validate_solver s = None -> solve_dispatch s has_dde = None).
+Proof. exact solver_strings_generated. Qed.
+Print Assumptions C20_solver_strings_generated.
